@@ -86,6 +86,8 @@ def transform_to_schematic_element(element: dict) -> elm.Element:
         raise errors.UnknownCircuitElement(element_type) from e
 
 def apply_direction_and_length(element: elm.Element, direction: str = '', length: float = 1, unit: float = 1) -> elm.Element:
+    if not isinstance(element, elm.schemdraw.elements.Element2Term):
+        return getattr(element, direction)() if direction in ('right', 'left', 'up', 'down') else element
     if direction == 'right':
         element.right(length*unit)
     elif direction == 'left':
